@@ -44,6 +44,10 @@ var c12Queries = []string{
 	"SELECT ARRAY(a - zz, zz) AS arr, IF(a > ?, zz + 1, zz) AS v, (zz + 1, zz) AS tup FROM t",
 	"SELECT a, COUNT(zz) AS n, SUM(zz) AS s, MIN(zz) AS lo, AVG(zz + 1) AS av FROM t WHERE a > ? GROUP BY a",
 	"SELECT * FROM t WHERE zz + 1 IS NULL OR a > ? ORDER BY zz + 1",
+	// spread markers reaching the select list through other expressions
+	"SELECT a, CASE WHEN a > ? THEN FUSE(FIRST(items)) ELSE FUSE(LAST(items)) END FROM t",
+	"SELECT IF(a > ?, FUSE(FIRST(items)), FUSE((SELECT a AS z FROM dual))), a FROM t",
+	"SELECT a, CASE WHEN a > ? THEN FUSE(FIRST(items)) END AS c, ARRAY(FUSE(FIRST(items))) AS arr, FIRST(ARRAY(FUSE(FIRST(items)))) AS f, (FUSE(FIRST(items)), 1) AS tup FROM t",
 }
 
 func idFunc(q *Query, cur Map, o *FunctionOptions, args []any) (any, error) {
